@@ -2,6 +2,7 @@ package main
 
 import (
 	"fmt"
+	"go/types"
 	"strings"
 
 	"golang.org/x/tools/go/ssa"
@@ -165,6 +166,35 @@ func checkC19(cx *Ctx, r *Report) {
 		r.Check(okFlag, "R-VFG", "NewProvider:insecure-flag", w.FnPos(np), "the issuer factory is called with the provider's insecure flag", "the issuer factory is not called with the provider's insecure flag")
 	}
 
+	// insecure mode is switched on explicitly only: Provider.insecure is written by the closure WithAllowInsecure
+	// returns (the constant true) and by nothing else - in particular not from configuration shared between providers -
+	// and an option writes only into the provider it is applied to
+	{
+		nW := 0
+		for _, fn := range w.Funcs {
+			for _, st := range fx.info(fn).stores {
+				fa, ok := st.Addr.(*ssa.FieldAddr)
+				if !ok {
+					continue
+				}
+				owner, field := fieldOwner(fa.X.Type()), fname(fieldVar(fa.X.Type(), fa.Field))
+				if owner == "provider.Provider" && field == "insecure" {
+					nW++
+					k, isC := st.Val.(*ssa.Const)
+					okW := isC && k.Value != nil && k.Value.ExactString() == "true" && isOptionFunc(fn)
+					r.Check(okW, "R-WHO", "Provider.insecure@"+w.FuncKey(fn), w.InstrPos(st), "set to true by the WithAllowInsecure option", "Provider.insecure is written at "+w.InstrPos(st)+" other than by the WithAllowInsecure option with the constant true (e.g. from a configuration value): http issuers become acceptable without insecure mode having been enabled explicitly for this provider")
+				}
+				if isOptionFunc(fn) {
+					// an Option closure: stores go to fields of the provider parameter itself
+					if _, isLd := fa.X.(*ssa.UnOp); isLd && strings.HasSuffix(owner, "Config") {
+						r.Check(false, "R-WHO", "option-writes-config@"+w.FuncKey(fn), w.InstrPos(st), "", "the option "+w.FuncKey(fn)+" writes "+owner+"."+field+" of an object reached through the provider (configuration that other providers built from the same Config share): insecure mode of one provider leaks into the next")
+					}
+				}
+			}
+		}
+		r.Check(nW >= 1, "R-WHO", "Provider.insecure:#writers", "", fmt.Sprintf("%d writer(s)", nW), "Provider.insecure is never written: insecure mode cannot be enabled explicitly any more")
+	}
+
 	// --- derived issuer ----------------------------------------------------------------------------------
 	fac := w.Func("provider.issuerFromForwardedOrHost")
 	cl := w.Func("provider.issuerFromForwardedOrHost$1$1")
@@ -249,6 +279,7 @@ func checkC19(cx *Ctx, r *Report) {
 		r.Check(nOwn == 0, "R-VFG", "IssuerFromHost:no-headers", w.FnPos(ih), "passes a configuration without forwarding headers", "IssuerFromHost configures forwarding headers: the issuer can then be taken from a client-supplied header")
 	}
 	cx.checkIssuerSchemeFlag(r)
+	cx.checkHeaderOrder(r)
 	// scheme chosen by allowInsecure alone; leading slash rule
 	if di := w.Func("provider.dynamicIssuer"); di != nil {
 		aps, ok := fx.atomPaths(di, 256)
@@ -295,6 +326,70 @@ func checkC19(cx *Ctx, r *Report) {
 // checkIssuerSchemeFlag: the flag that selects the scheme of a derived issuer is the configured one, unchanged, at
 // every call of dynamicIssuer: the issuer of a host then does not vary with anything else a request carries
 // (TLS state, headers), so the entityID served to one request is the Issuer sent in reply to another.
+// checkHeaderOrder: "the first host of the configured forwarding headers" means configured order. No function of
+// the issuer configuration code re-orders or thins out a list of header names (sort, compact, reverse): the list a
+// request is judged by is the one configured, element for element.
+// isOptionFunc: fn has the shape of a provider Option: func(*Provider) error.
+func isOptionFunc(fn *ssa.Function) bool {
+	sig := fn.Signature
+	if sig.Recv() != nil || sig.Params().Len() != 1 || sig.Results().Len() != 1 || !isErrorType(sig.Results().At(0).Type()) {
+		return false
+	}
+	return typeKey(sig.Params().At(0).Type()) == "provider.Provider" && len(fn.FreeVars) == 0 || typeKey(sig.Params().At(0).Type()) == "provider.Provider"
+}
+
+func (cx *Ctx) checkHeaderOrder(r *Report) {
+	w := cx.W
+	reorder := map[string]bool{"slices.Sort": true, "slices.SortFunc": true, "slices.SortStableFunc": true, "slices.Reverse": true, "slices.Compact": true, "slices.CompactFunc": true,
+		"sort.Strings": true, "sort.Slice": true, "sort.SliceStable": true, "sort.Sort": true, "sort.Stable": true, "slices.DeleteFunc": true, "slices.Delete": true}
+	scope := map[*ssa.Function]bool{}
+	n := 0
+	for _, fn := range w.Funcs {
+		if fn.Pkg == nil || shortPkg(fn.Pkg.Pkg.Path()) != "provider" {
+			continue
+		}
+		root := fn
+		for root.Parent() != nil {
+			root = root.Parent()
+		}
+		// the functions that build or use an issuerConfig
+		uses := false
+		for _, b := range fn.Blocks {
+			for _, in := range b.Instrs {
+				if fa, ok := in.(*ssa.FieldAddr); ok && fieldOwner(fa.X.Type()) == "provider.issuerConfig" {
+					uses = true
+				}
+			}
+		}
+		if uses {
+			scope[root] = true
+		}
+	}
+	for fn := range scope {
+		sc := map[*ssa.Function]bool{}
+		w.refClosure(fn, sc)
+		for g := range sc {
+			for _, c := range callsIn(g) {
+				name := calleeName(c)
+				if i := strings.Index(name, "["); i >= 0 {
+					name = name[:i] // generic instance
+				}
+				if !reorder[name] || len(c.Common().Args) == 0 {
+					continue
+				}
+				if t, ok := c.Common().Args[0].Type().Underlying().(*types.Slice); !ok || !isStringType(t.Elem()) {
+					continue
+				}
+				n++
+				r.Fail("R-VFG", "issuer-headers:order@"+w.FuncKey(g), w.InstrPos(c), "a list of header names is re-ordered or thinned out with "+name+" while the issuer configuration is built: the host is then taken from the first header in that order, not from the first configured one")
+			}
+		}
+	}
+	if n == 0 {
+		r.Ok("R-VFG", "issuer-headers:order", "", fmt.Sprintf("no re-ordering of header lists in the %d functions that build or use the issuer configuration", len(scope)))
+	}
+}
+
 func (cx *Ctx) checkIssuerSchemeFlag(r *Report) {
 	w := cx.W
 	fo := w.Func("provider.issuerFromForwardedOrHost")
